@@ -369,6 +369,10 @@ def build(spec):
     if "prices" in spec:
         for k, v in spec["prices"].items():
             data[k] = np.array(v, dtype=float)
+    if spec.get("nan_rows"):
+        # dates on which nothing at all is quoted (legal while the book is flat)
+        for i in spec["nan_rows"]:
+            data.iloc[i, :] = np.nan
     if spec.get("cols"):
         data = data[spec["cols"]]
     idx = data.index
@@ -594,6 +598,11 @@ def family(tier, seed, nested_full=False):
             sp = {"tree": tree, "stack": st, "data": data, "alpha": alpha, "integer": integer, "capital": capital, "rng": seed % 4}
             sp.update(cost)
             specs.append(sp)
+    # dates without any quote before the strategy starts trading, with capital flowing in on them
+    for cost in (COSTS[0], COSTS[1]):
+        sp = {"tree": "flat", "stack": dict(BASE, gate="afterdate", flow=1000.0, flowgate="daily"), "data": "d12", "alpha": "exact", "late": False, "nan_rows": [1, 2], "integer": True, "capital": 1000000.0, "rng": 0}
+        sp.update(cost)
+        specs.append(sp)
     # a very large book on constant prices whose targets drift by millionths: every trade is tiny
     # relative to the position it changes
     for cost in (COSTS[4], COSTS[1], COSTS[3]):
